@@ -373,6 +373,16 @@ pub fn run_acl(seed: u64, r: &mut Report, stats: &mut crate::RunStats) {
     };
     let mut exes: Vec<String> = vec![];
     let base = json!({"acl_seed": seed.to_string()});
+    // in half of the histories one account holds the engine's owner role AND its pauser role (the state every deployment is
+    // in right after instantiation): handing one of the two roles over must leave the other one where it is
+    if rng.chance(1, 2) {
+        let st = h.step(Op::Engine { sender: roles.pauser.clone(), msg: eng::ExecuteMsg::UpdatePauser { pauser: roles.eng_owner.clone() }, funds: 0 }, r);
+        if st.out.ok {
+            exes.push(roles.pauser.clone());
+            roles.pauser = roles.eng_owner.clone();
+            r.count("histories-with-owner-and-pauser-roles-in-one-hand");
+        }
+    }
     matrix(&mut h.w, &roles, "before", &exes, &mut rng, r, &base);
 
     // accepted updates of NON-role fields (fee pool, price feed, caps, ratios) must not move any role
@@ -398,7 +408,7 @@ pub fn run_acl(seed: u64, r: &mut Report, stats: &mut crate::RunStats) {
     // role transfers, chained twice; each transfer is a real transaction by the current holder
     let rounds = [("newowner", "newpauser", "after1"), ("owner3", "pauser3", "after2")];
     for (no, np, phase) in rounds {
-        let steps: Vec<Op> = vec![
+        let owner_steps: Vec<Op> = vec![
             Op::Vamm { sender: roles.vamm_owner.clone(), vamm: 0, msg: vm::ExecuteMsg::UpdateOwner { owner: no.into() } },
             Op::Engine {
                 sender: roles.eng_owner.clone(),
@@ -415,28 +425,47 @@ pub fn run_acl(seed: u64, r: &mut Report, stats: &mut crate::RunStats) {
                 },
                 funds: 0,
             },
-            Op::Engine { sender: roles.pauser.clone(), msg: eng::ExecuteMsg::UpdatePauser { pauser: np.into() }, funds: 0 },
             Op::Insurance { sender: roles.ins_owner.clone(), msg: ins::ExecuteMsg::UpdateOwner { owner: no.into() } },
             Op::FeePool { sender: roles.fee_owner.clone(), msg: fp::ExecuteMsg::UpdateOwner { owner: no.into() } },
             Op::Feed { sender: roles.feed_owner.clone(), msg: pf::ExecuteMsg::UpdateOwner { owner: no.into() } },
         ];
-        for op in steps {
-            let st = h.step(op.clone(), r);
-            if !st.out.ok {
-                r.violation("C09", "R2-role-transfer-refused", format!("R2|transfer|{}", op.kind()), format!("role transfer {} by the current holder failed: {}", op.kind(), st.out.err_text()), st.seq);
+        let pauser_steps: Vec<Op> = vec![Op::Engine { sender: roles.pauser.clone(), msg: eng::ExecuteMsg::UpdatePauser { pauser: np.into() }, funds: 0 }];
+        // the owner roles and the pauser role are handed over in either order, with the matrix in between: a hand-over of
+        // one role moves that role only
+        let owners_first = rng.chance(1, 2);
+        for (gi, owners) in [owners_first, !owners_first].into_iter().enumerate() {
+            let steps = if owners { &owner_steps } else { &pauser_steps };
+            for op in steps {
+                let st = h.step(op.clone(), r);
+                if !st.out.ok {
+                    r.violation("C09", "R2-role-transfer-refused", format!("R2|transfer|{}", op.kind()), format!("role transfer {} by the current holder failed: {}", op.kind(), st.out.err_text()), st.seq);
+                }
+            }
+            if owners {
+                for e in [roles.vamm_owner.clone(), roles.eng_owner.clone()] {
+                    if !exes.contains(&e) && e != roles.pauser {
+                        exes.push(e);
+                    }
+                }
+                roles.vamm_owner = no.into();
+                roles.eng_owner = no.into();
+                roles.ins_owner = no.into();
+                roles.fee_owner = no.into();
+                roles.feed_owner = no.into();
+            } else {
+                let e = roles.pauser.clone();
+                roles.pauser = np.into();
+                if !exes.contains(&e) && e != roles.eng_owner {
+                    exes.push(e);
+                }
+            }
+            if gi == 0 {
+                r.count("matrix-runs-between-owner-and-pauser-handover");
+                matrix(&mut h.w, &roles, &format!("{}-half", phase), &exes, &mut rng, r, &base);
             }
         }
-        for e in [&roles.vamm_owner, &roles.pauser] {
-            if !exes.contains(e) {
-                exes.push(e.clone());
-            }
-        }
-        roles.vamm_owner = no.into();
-        roles.eng_owner = no.into();
-        roles.pauser = np.into();
-        roles.ins_owner = no.into();
-        roles.fee_owner = no.into();
-        roles.feed_owner = no.into();
+        // (a former holder that still holds another role is not an "ex" of everything: drop current holders)
+        exes.retain(|e| *e != roles.pauser && *e != roles.eng_owner);
         r.count("role-transfer-rounds");
         matrix(&mut h.w, &roles, phase, &exes, &mut rng, r, &base);
     }
